@@ -79,6 +79,11 @@ func Verif_H06GC() {
 	vrt.Assert(gcErr == nil, "gc-cycle-no-error", "gc", gcKind)
 	vrt.Assert(a.err == nil, "call-concurrent-with-gc-returns-no-error", "kind", a.kind, "gc", gcKind)
 	vrt.Assert(a.matches(m, false), "call-concurrent-with-gc-matches-model", "kind", a.kind, "gc", gcKind)
+	if vrt.Param("secondcycle", 0) != 0 && gcKind == 1 {
+		// an idle store: a second primary GC cycle before anything else is flushed
+		_, err := s.index.Primary.(*mhprimary.MultihashPrimary).GC(context.Background(), 0)
+		vrt.Assert(err == nil, "gc-cycle-no-error", "gc", gcKind, "cycle", 2)
+	}
 	ctxs := map[int]string{opPut: "after-put", opGet: "after-get", opRemove: "after-remove", opFlush: "after-flush"}[a.kind] + []string{"+index-gc", "+primary-gc"}[gcKind]
 	checkAll(s, keys, m, ctxs)
 	vrt.Assert(s.Flush() == nil, "flush-no-error")
